@@ -95,3 +95,44 @@ Proof.
     + destruct (smem (e_name e) (o :: os)); [|exact IH].
       destruct (scope_at p i') as [msc'|]; [|exact IH]. destruct (check_scope msc' _ true); [discriminate|exact IH].
 Qed.
+
+(* the converse, for rename-free dictionaries: what the USE search of find_in_scope resolves to an entity is offered *)
+Lemma check_scope_some msc name e : check_scope msc name true = Some e ->
+  In e (sp_children msc) /\ is_private msc e = false /\ e_name e = name.
+Proof.
+  unfold check_scope. intro H. apply find_some in H as [Hin H]. cbn in H.
+  apply andb_true_iff in H as [H1 H2]. apply negb_true_iff in H1. apply str_eqb_eq in H2. auto.
+Qed.
+
+Theorem resolved_name_is_offered p d name mi e m :
+  Forall (fun x => i_ren (snd x) = []) d ->
+  search_uses p d name = Some (mi, Some e, ViaUse m) -> In (m, e, name) (use_candidates p d).
+Proof.
+  intros Hnoren. induction d as [|[m' info] r IH]; cbn [search_uses]; [discriminate|].
+  inversion Hnoren as [|? ? Hr Hrest]; subst. cbn in Hr.
+  assert (Htail : forall x, In x (use_candidates p r) -> In x (use_candidates p ((m', info) :: r))).
+  { intros x Hx. unfold use_candidates. cbn [flat_map]. apply in_or_app. now right. }
+  destruct (sassoc m' (p_tree p)) as [i|] eqn:Ei; [|intro H; apply Htail; now apply IH].
+  destruct (str_eqb m' name); [discriminate|].
+  assert (Hhere : forall msc, scope_at p i = Some msc -> forall e0, check_scope msc name true = Some e0 ->
+                  (i_only info = [] \/ smem name (i_only info) = true) -> In (m', e0, name) (use_candidates p ((m', info) :: r))).
+  { intros msc Hs e0 Hc Ho. apply check_scope_some in Hc as [Hin [Hp Hn]].
+    unfold use_candidates. cbn [flat_map fst snd]. rewrite Ei, Hs. apply in_or_app. left.
+    apply in_map_iff. exists e0. split.
+    - unfold label_of. rewrite Hr. now rewrite Hn.
+    - unfold module_candidates.
+      assert (Hpub : In e0 (filter (fun e1 => negb (is_private msc e1)) (sp_children msc))) by (apply filter_In; split; [exact Hin|now rewrite Hp]).
+      destruct (i_only info) as [|o os] eqn:Eo; [exact Hpub|]. apply filter_In. split; [exact Hpub|].
+      unfold remote_names. rewrite Hr, Eo. cbn [sassoc]. rewrite map_id. rewrite Hn. destruct Ho as [Ho|Ho]; [discriminate|exact Ho]. }
+  rewrite Hr. cbn [sassoc].
+  destruct (i_only info) as [|o os] eqn:Eo.
+  - destruct (scope_at p i) as [msc|] eqn:Es; [|intro H; apply Htail; now apply IH].
+    destruct (check_scope msc name true) as [e0|] eqn:Ec.
+    + intro H. inversion H; subst. apply (Hhere msc eq_refl e Ec). now left.
+    + intro H. apply Htail. now apply IH.
+  - destruct (smem name (o :: os)) eqn:Em; [|intro H; apply Htail; now apply IH].
+    destruct (scope_at p i) as [msc|] eqn:Es; [|intro H; apply Htail; now apply IH].
+    destruct (check_scope msc name true) as [e0|] eqn:Ec.
+    + intro H. inversion H; subst. apply (Hhere msc eq_refl e Ec). now right.
+    + intro H. apply Htail. now apply IH.
+Qed.
